@@ -193,15 +193,25 @@ def check(results):
     for l in out:
         if l.startswith("R\t"):
             f = l.split("\t")
-            cur = {"rid": f[1], "status": f[2], "fix": (f[3][4:] if len(f) > 3 else None), "lines": []}
+            cur = {"rid": f[1], "status": f[2], "fix": (f[3][4:] if len(f) > 3 else None), "lines": [],
+                   "flags": dict(x.split("=", 1) for x in f[4:] if "=" in x)}
             replies[f[1]] = cur
         elif l.startswith("N\t") and cur is not None:
             cur["lines"].append(l)
     dis = []
     classes = {}
     compared = 0
+    hyp = {"declared": 0, "core": 0, "okval": 0, "core_and_okval": 0, "programs": set(), "declared_false": []}
     for r in plan:
         rep = replies.get(r["rid"])
+        if rep is not None and rep["status"] == "ok":
+            fl = rep.get("flags", {})
+            hyp["declared"] += fl.get("declared") == "1"
+            hyp["core"] += fl.get("core") == "1"
+            hyp["okval"] += fl.get("okval") == "1"
+            hyp["core_and_okval"] += fl.get("core") == "1" and fl.get("okval") == "1"
+            if fl.get("declared") == "0":
+                hyp["declared_false"].append(r)
         if rep is None:
             dis.append((r, "the model driver gave no reply"))
             continue
@@ -234,4 +244,50 @@ def check(results):
             if rep["fix"] != r["fix"]:
                 dis.append((r, f"fixpoint: real {r['fix']}, model {rep['fix']}"))
     classes["runtime-limit-excluded"] = runtime_limits
+    classes["hypotheses"] = {"instances_ok": sum(1 for r in plan if (replies.get(r["rid"]) or {}).get("status") == "ok"),
+                             "program_declared": hyp["declared"], "program_core": hyp["core"], "value_ok": hyp["okval"],
+                             "roundtrip_theorem_applies": hyp["core_and_okval"], "program_not_declared": len(hyp["declared_false"])}
+    classes["_not_declared"] = hyp["declared_false"][:3]
     return compared, dis, skipped, classes
+
+
+def check_progof(cases, limit=60):
+    """`Ya.progOf` of the model's document against the derive input syn reads from the real emitted file:
+    every struct of a namespace module must be the same (attributes, members, member types)"""
+    from .common import sh
+    n = 0
+    dis = []
+    for c in cases:
+        if n >= limit:
+            break
+        if not c["impl"].startswith("ok") or not c.get("dump") or c["dump"] == "-":
+            continue
+        obs = g.parse_obs(c["impl_obs"])
+        prog = program_lines(obs)
+        if prog is None:
+            continue
+        rc, out, err = sh([ZVDRV, "progof", c["dump"], c["start"]], timeout=300)
+        if rc != 0 or out.startswith("read-err"):
+            dis.append((c, f"progof failed: {out[:100]} {err[-200:]}"))
+            continue
+        n += 1
+
+        def blocks(lines):
+            b = {}
+            cur = None
+            for l in lines:
+                f = l.split("\t")
+                if f[0] == "S":
+                    cur = bytes.fromhex(f[1]).decode()
+                    b[cur] = [l]
+                elif f[0] == "F" and cur is not None:
+                    b[cur].append(l)
+            return b
+        mb = blocks([l for l in out.split("\n") if l])
+        ib = blocks(prog)
+        in_modules = {k for k in ib if "::" in k}
+        for k in sorted(set(mb) | in_modules):
+            if mb.get(k) != ib.get(k):
+                dis.append((c, f"struct {k}: model {mb.get(k)} vs emitted {ib.get(k)}"[:600]))
+                break
+    return n, dis
